@@ -139,7 +139,7 @@ def run(tier, seed, replay=None):
     outs = C.run_model(lines)
     evals = 0
     nontriv = set()
-    corr_bad = None
+    corr_bad = C.Corr()
     samples = []
     for c, ent in zip(cases, idx):
         evals += 1
@@ -149,22 +149,22 @@ def run(tier, seed, replay=None):
         if tk.peek() == 'Err':
             tk.word()
             me = tk.word()
-            if c['err'] != me and corr_bad is None:
-                corr_bad = dict(case, what='L1: model raises %s, implementation %s' % (me, c['err'] or 'succeeds'))
+            if c['err'] != me and corr_bad.open():
+                corr_bad += dict(case, what='L1: model raises %s, implementation %s' % (me, c['err'] or 'succeeds'))
         else:
             tk.word()
             mp = tk.list(lambda: O.read_obj(tk))
             if c['err'] is not None:
-                if corr_bad is None:
-                    corr_bad = dict(case, what='L1: implementation raises %s, model succeeds' % c['err'])
+                if corr_bad.open():
+                    corr_bad += dict(case, what='L1: implementation raises %s, model succeeds' % c['err'])
             elif len(mp) != len(c['pieces']):
-                if corr_bad is None:
-                    corr_bad = dict(case, what='L1: %d pieces, model %d' % (len(c['pieces']), len(mp)))
+                if corr_bad.open():
+                    corr_bad += dict(case, what='L1: %d pieces, model %d' % (len(c['pieces']), len(mp)))
             else:
                 for i, (a, b) in enumerate(zip(c['pieces'], mp)):
                     dfr = O.snaps_differ(a, b)
-                    if dfr and corr_bad is None:
-                        corr_bad = dict(case, what='L1: piece %d differs from model: %s' % (i, dfr))
+                    if dfr and corr_bad.open():
+                        corr_bad += dict(case, what='L1: piece %d differs from model: %s' % (i, dfr))
         # ---- L2
         bd = pre['bases'][c['d']]
         s_, e_ = O.domain(bd)
@@ -355,8 +355,8 @@ def run(tier, seed, replay=None):
             case = ent['case']
             tk = aouts[ent['l1']]
             if tk.word() == 'Err':
-                if corr_bad is None:
-                    corr_bad = dict(case, what='L1: model append raises %s, implementation succeeds' % tk.word())
+                if corr_bad.open():
+                    corr_bad += dict(case, what='L1: model append raises %s, implementation succeeds' % tk.word())
             else:
                 dfr = O.snaps_differ(ent['post'], O.read_obj(tk), rel=1e-7)
                 if dfr:
@@ -378,7 +378,7 @@ def run(tier, seed, replay=None):
             df = O.maps_differ(pad(vb, nd), vpb, rel=1e-7)
             if df:
                 V.failure(dict(case, what='L2: the appended curve differs from the second curve (shifted) on its interval: ' + df[1]))
-    rc = V.finish(l0, corr_bad if not V.fail else None)
+    rc = V.finish(l0, corr_bad)
     C.write_evidence(PID, tier, seed, l0, {
         'evaluations': evals + nsub + napp + ndec, 'distinct_nontrivial': len(nontriv),
         'rule': 'random objects (pardim 1-3, open/non-open/periodic directions); split at 1-3 increasing points (knots of any multiplicity, between knots, '
